@@ -290,7 +290,19 @@ def run(ctx, repo, tier):
               "(networkx)", fs.where, "connected_components(G)", witness="no connected_components call")
     check_no_input_mutation(ctx, oa_s, fs, "C13.sublists", ["input_list"])
     # every sub-list contributes its nodes and its consecutive edges, unconditionally (otherwise the closure is not transitive)
-    builders = [n for n in ast.walk(fs.node) if isinstance(n, ast.FunctionDef) and n is not fs.node and
+    # candidate helper functions: nested definitions and module-level functions reachable from merge_sublists by name
+    reach_, todo_ = [], [fs.node]
+    while todo_:
+        cur_ = todo_.pop()
+        for c_ in ast.walk(cur_):
+            if isinstance(c_, ast.Call) and isinstance(c_.func, ast.Name):
+                g_ = fs.module.functions.get(c_.func.id)
+                if g_ is not None and g_.cls is None and g_.node not in reach_ and g_.node is not fs.node:
+                    reach_.append(g_.node)
+                    todo_.append(g_.node)
+                    ctx.analysed(g_)
+    helper_defs = [n for n in ast.walk(fs.node) if isinstance(n, ast.FunctionDef) and n is not fs.node] + reach_
+    builders = [n for n in helper_defs if
                 any(isinstance(c, ast.Call) and isinstance(c.func, ast.Attribute) and c.func.attr in ("add_edges_from", "add_edge") for c in ast.walk(n))]
     ctx.instance("DOM")
     if len(builders) != 1:
@@ -318,8 +330,7 @@ def run(ctx, repo, tier):
                             witness="e.g. [[0,4],[1,2],[2,4]] -> [[0,4],[1,2]] instead of [[0,1,2,4]]")
             else:
                 ctx.inconclusive("DOM", "C13.sublists.graph", "graph construction idiom not recognised", fs.where, src(lp)[:200])
-    edge_fns = [n for n in ast.walk(fs.node) if isinstance(n, ast.FunctionDef) and n is not fs.node and
-                any(isinstance(c, ast.Yield) for c in ast.walk(n))]
+    edge_fns = [n for n in helper_defs if any(isinstance(c, ast.Yield) for c in ast.walk(n))]
     if len(edge_fns) == 1:
         ef = edge_fns[0]
         ys = [n for n in ast.walk(ef) if isinstance(n, ast.Yield)]
@@ -405,8 +416,10 @@ def run(ctx, repo, tier):
                         witness="e.g. index_list=[[0],[1,2],[3]], all_to_join=[[0,2],[1,3]] -> rows [0,1] and [1,2] overlap; "
                                 "index_list=[[0],[2]], all_to_join=[[1,3]] -> empty group, to_join[0] raises IndexError",
                         key="OWN|molgri/molecules/rate_merger.py:merge_matrix_cells|re-indexed groups not re-closed")
-    if len(rep_sites) < 3 and not star_loops:
-        ctx.inconclusive("ORD", "C13.merge.representative.count", "expected the representative/rest split of the groups (3 sites)",
+    has_first = any(isinstance(n.slice, ast.Constant) for n in rep_sites)
+    has_rest = any(isinstance(n.slice, ast.Slice) for n in rep_sites)
+    if not (has_first and has_rest) and not star_loops:
+        ctx.inconclusive("ORD", "C13.merge.representative.count", "expected the representative/rest split of the groups (g[0] and g[1:])",
                          fm.where, witness=f"found {len(rep_sites)}")
     # pops: for v in IT: L.pop(v)   => IT descending
     pops = [e for e in oa_m.events if e[0] == "pop" and e[4]]
